@@ -424,6 +424,12 @@ func TestVerif_C14(t *testing.T) {
 			}
 			set[a], set[b] = set[b], set[a]
 			mustFail("signers-unsorted", good, publics, set, msg, "the signature for the same signers in unsorted order", nil)
+			// unsorted AND out of range: an index beyond the key vector that is not the last entry (and as first entry)
+			for _, at := range []int{0, rng.Intn(k - 1)} {
+				bad := vC14Ints(signers)
+				bad[at] = n + rng.Intn(3)
+				mustFail("signers-unsorted-and-out-of-range", good, publics, bad, msg, fmt.Sprintf("the signer set with entry %d replaced by an index beyond the %d keys (the last entry stays in range)", at, n), nil)
+			}
 			if rng.Intn(3) == 0 {
 				rev := make([]int, k)
 				for i := range signers {
